@@ -116,6 +116,10 @@ class World:
             if rt is not None and not getattr(rt, "as_operators", False) and hasattr(rt, "_data"):
                 snap["tensor[%s]._data" % name] = numpy.array(rt._data, copy=True)
             snap["prop[%s].Hamiltonian._data" % name] = numpy.array(prop.Hamiltonian._data, copy=True)
+            pdo = getattr(prop, "PDeph", None)
+            if pdo is not None and hasattr(pdo, "data"):
+                snap["prop[%s].PureDephasing.data" % name] = numpy.array(pdo.data, copy=True)
+                snap["prop[%s].PureDephasing.dtype" % name] = str(getattr(pdo, "dtype", None))
         return snap
 
     @staticmethod
@@ -222,10 +226,12 @@ class World:
             ev = self.props["plain"][0].propagate(self.rho["rho0"])
             return {"evolution": self.cp(_name(op) + ":evolution", ev, "data"),
                     "in_rwa": numpy.array([1.0 if getattr(ev, "is_in_rwa", False) else 0.0])}
-        if name == "propagate_pdeph":
-            # pure dephasing + refinement requested through the propagate argument
+        if name in ("propagate_pdeph", "propagate_pdephG"):
+            # pure dephasing (Lorentzian / Gaussian) + refinement requested through the propagate
+            # argument; the PureDephasing object is an input of the propagator (snapshot)
             _, nref = op
-            if "pdeph" not in self.props:
+            pkey = "pdeph" if name == "propagate_pdeph" else "pdephG"
+            if pkey not in self.props:
                 from quantarhei.qm import PureDephasing
                 RR, hh = self.agg.get_RelaxationTensor(self.ta,
                                                        relaxation_theory="standard_Redfield")
@@ -234,11 +240,11 @@ class World:
                 for i in range(dd):
                     for j in range(dd):
                         if i != j:
-                            g[i, j] = 0.004 * (1 + abs(i - j))
-                pd = PureDephasing(drates=g, dtype="Lorentzian")
-                self.props["pdeph"] = (qr.qm.ReducedDensityMatrixPropagator(
+                            g[i, j] = (0.004 if pkey == "pdeph" else 0.0004) * (1 + abs(i - j))
+                pd = PureDephasing(drates=g, dtype="Lorentzian" if pkey == "pdeph" else "Gaussian")
+                self.props[pkey] = (qr.qm.ReducedDensityMatrixPropagator(
                     self.ta, hh, RR, PDeph=pd), {"Nref": 1})
-            p, settings = self.props["pdeph"]
+            p, settings = self.props[pkey]
             if nref > 1:
                 settings["Nref"] = nref          # documented: a setting that stays on the object
             ev = p.propagate(self.rho["rho0"], Nref=nref) if nref > 1 \
@@ -456,7 +462,8 @@ def menu(tier):
            ["rates", "redfield"], ["rates", "foerster"],
            ["abs"], ["dm", "thermal"], ["dm", "impulsive_excitation"]]
     ops = [o for o in ops if o is not None]
-    ops += [["heom_plain"], ["propagate_plain"], ["propagate_pdeph", 1], ["propagate_pdeph", 5]]
+    ops += [["heom_plain"], ["propagate_plain"], ["propagate_pdeph", 1], ["propagate_pdeph", 5],
+            ["propagate_pdephG", 1], ["propagate_pdephG", 5]]
     ops += [["tensor_nr", "standard_Redfield", False, False],
             ["propagate_nr", "standard_Redfield", False, "rho0"]]
     ops += [["bad", "tensor_cutoff"], ["bad", "tensor_theory"], ["bad", "dm_condition"],
@@ -606,9 +613,9 @@ def execute(hist):
                 inner = list(inner)
                 inner[4] = res["_settings"]["Nref"]
                 twop = ["in", twop[1], inner] if twop[0] == "in" else inner
-            if inner[0] == "propagate_pdeph" and res is not None and \
+            if inner[0] in ("propagate_pdeph", "propagate_pdephG") and res is not None and \
                     res.get("_settings", {}).get("Nref", 1) > 1:
-                twop = ["propagate_pdeph", res["_settings"]["Nref"]]
+                twop = [inner[0], res["_settings"]["Nref"]]
             try:
                 ref = tw.call(twop)
                 tcr = None
@@ -703,6 +710,7 @@ def run(run):
                     ["propagate", "standard_Redfield", True, "rho0", 1],
                     ["heom_plain"], ["propagate_plain"],
                     ["propagate_pdeph", 1], ["propagate_pdeph", 5],
+                    ["propagate_pdephG", 1], ["propagate_pdephG", 5],
                     ["tensor_cut", 100], ["tensor_cut", 40], ["heom_coarse"]]
     run_bfs(run, execute, depth, cap_s=25 if run.tier == "quick" else 240,
             section="refusals-and-settings")
